@@ -52,6 +52,7 @@ type VerifyOpts struct {
 	Events  bool
 	Timeout time.Duration
 	Only    func(name string) bool // filter obligations by name
+	ExpectFail func(name string) bool // obligations listed as known findings: a model of the quantifier-free part suffices
 }
 
 func (w *World) contractFor(fi *FuncInfo) *Contract {
@@ -247,8 +248,8 @@ func (ex *Exec) installAxiom(ax *SpecAxiom) {
 		if err != nil {
 			panic(unsupported{"axiom " + ax.Name + ": " + err.Error(), token.NoPos})
 		}
-		qvarCounter++
-		vn := fmt.Sprintf("|%s?%d|", b.Name, qvarCounter)
+		ex.qvarCounter++
+		vn := fmt.Sprintf("|%s?%d|", b.Name, ex.qvarCounter)
 		q.names[b.Name] = Value{vn, t}
 		binders = append(binders, "("+vn+" "+ex.c.SortOf(t)+")")
 	}
@@ -295,13 +296,23 @@ func (ex *Exec) discharge(opts VerifyOpts) []OblResult {
 			results[i] = OblResult{Name: name, Status: "skipped"}
 			continue
 		}
-		var disj []string
+		var disj, weak []string
 		var where []string
+		hasQuant := false
 		for _, in := range o.Insts {
 			if in.Goal == "true" || in.PC == "false" {
 				continue
 			}
 			disj = append(disj, and(in.PC, not(in.Goal)))
+			var qf []string
+			for _, c := range in.PCs {
+				if isQuantified(c) {
+					hasQuant = true
+					continue
+				}
+				qf = append(qf, c)
+			}
+			weak = append(weak, and(and(qf...), not(in.Goal)))
 			where = append(where, in.Pos)
 		}
 		r := OblResult{Name: name, Kind: o.Kind, Func: o.Func, Text: o.Text, Insts: len(o.Insts), Where: strings.Join(uniq(where), ",")}
@@ -312,12 +323,36 @@ func (ex *Exec) discharge(opts VerifyOpts) []OblResult {
 			continue
 		}
 		script := prelude + "(assert " + or(disj...) + ")\n"
+		weakScript := ""
+		if hasQuant {
+			weakScript = ex.c.PreludeNoQuantAxioms() + "(assert " + or(weak...) + ")\n"
+		}
 		r.Script = script
 		wg.Add(1)
-		go func(i int, r OblResult, script string) {
+		go func(i int, r OblResult, o *Obligation, script, weakScript string) {
 			defer wg.Done()
+			var weakRes *SolverResult
+			if weakScript != "" {
+				// first without the quantified assumptions: unsat there is unsat with them
+				wr := Solve(weakScript, timeout, true)
+				r.SolverMs += wr.Ms
+				if wr.Status == "unsat" {
+					r.Status = "proved"
+					r.Backend = wr.Solver + " (without quantified assumptions)"
+					results[i] = r
+					return
+				}
+				weakRes = &wr
+				if wr.Status == "sat" && (o.Kind == "cover" || o.Kind == "canary" || opts.ExpectFail != nil && opts.ExpectFail(r.Name)) {
+					r.Status = "refuted-weak"
+					r.Backend = wr.Solver + " (model of the quantifier-free part)"
+					r.Model = trimModel(wr.Model)
+					results[i] = r
+					return
+				}
+			}
 			sr := Solve(script, timeout, true)
-			r.SolverMs = sr.Ms
+			r.SolverMs += sr.Ms
 			r.Backend = sr.Solver
 			switch sr.Status {
 			case "unsat":
@@ -326,11 +361,17 @@ func (ex *Exec) discharge(opts VerifyOpts) []OblResult {
 				r.Status = "refuted"
 				r.Model = trimModel(sr.Model)
 			default:
-				r.Status = "unknown"
-				r.Raw = sr.Status + ": " + firstLines(sr.Raw, 4)
+				if weakRes != nil && weakRes.Status == "sat" {
+					r.Status = "refuted-weak"
+					r.Backend = weakRes.Solver + " (model of the quantifier-free part; full query: " + sr.Status + ")"
+					r.Model = trimModel(weakRes.Model)
+				} else {
+					r.Status = "unknown"
+					r.Raw = sr.Status + ": " + firstLines(sr.Raw, 4)
+				}
 			}
 			results[i] = r
-		}(i, r, script)
+		}(i, r, o, script, weakScript)
 	}
 	wg.Wait()
 	var out []OblResult
@@ -340,6 +381,10 @@ func (ex *Exec) discharge(opts VerifyOpts) []OblResult {
 		}
 	}
 	return out
+}
+
+func isQuantified(c string) bool {
+	return strings.Contains(c, "(forall ") || strings.Contains(c, "(exists ")
 }
 
 func uniq(xs []string) []string {
@@ -407,12 +452,33 @@ func (w *World) VerifyLemma(l *Lemma, opts VerifyOpts) (res *UnitResult) {
 	ex.installAxioms(p)
 	ex.contractMode = 1
 	nEns := 0
+	var concl []string
 	for _, s := range l.Steps {
 		switch s.Kind {
 		case "requires":
 			p.Assume(ex.evalCE(p, s.E).T)
 		case "let":
-			p.names[s.Name] = ex.evalCE(p, s.E)
+			if strings.Contains(s.Name, ",") {
+				if s.E.Kind != "go" {
+					panic(unsupported{"multi-value let needs a call expression", token.NoPos})
+				}
+				ex.subsStack = append(ex.subsStack, s.E.Subs)
+				vals := ex.evalMulti(p, s.E.Go)
+				ex.subsStack = ex.subsStack[:len(ex.subsStack)-1]
+				names := strings.Split(s.Name, ",")
+				if len(names) != len(vals) {
+					panic(unsupported{fmt.Sprintf("let %s: %d values", s.Name, len(vals)), token.NoPos})
+				}
+				for i, n := range names {
+					p.names[strings.TrimSpace(n)] = vals[i]
+				}
+			} else {
+				p.names[s.Name] = ex.evalCE(p, s.E)
+			}
+		case "witness":
+			val := ex.evalCE(p, s.E)
+			wc := ctx.Const("w:"+s.Name, ctx.SortOf(val.Ty))
+			p.Assume("(= " + wc + " " + val.T + ")")
 		case "ensures", "canary":
 			nm := s.Name
 			if nm == "" {
@@ -424,10 +490,12 @@ func (w *World) VerifyLemma(l *Lemma, opts VerifyOpts) (res *UnitResult) {
 			if s.Kind == "canary" {
 				kind = "canary"
 			}
+			// earlier conclusions may be used by later ones, but never by the vacuity check
+			ex.guards = append(ex.guards, concl...)
 			ex.addObl(p, l.Name+"#"+nm, kind, s.Text, g, token.NoPos, "")
+			ex.guards = ex.guards[:len(ex.guards)-len(concl)]
 			if s.Kind == "ensures" {
-				// later steps may use earlier conclusions
-				p.Assume(g)
+				concl = append(concl, g)
 			}
 		}
 	}
